@@ -505,6 +505,19 @@ class Obligation:
         else:
             self.status = "undecided"
             self.note = f"solver: {info}"
+            # the solvers could not decide: look for a numeric counter-example to the VC (mdvc.numeric)
+            try:
+                from . import numeric
+
+                m = numeric.refute(self.hyps, goal)
+            except Exception:
+                m = None
+            if m is not None:
+                self.status = "refuted"
+                self.backend = "numeric"
+                self.model = m
+                self.note = "solver unknown; VC falsified numerically (libm interpretation of the uninterpreted functions)"
+            self.time_s = time.time() - t0
         return self.status
 
     def smt2(self):
